@@ -3,8 +3,8 @@ import Glom.Model.C04
   C04 — constructor shapes.  The catalogue of exception classes used by the
   correspondence is generated IN PYTHON FROM THIS SAME DATA (harness/props/c04.py
   `make_class`): a shape is a signature plus a rule for what the constructor
-  passes to `BaseException.__init__`, or one of the two C constructors that
-  rewrite their arguments.
+  passes to `BaseException.__init__`, or one of the C constructors that
+  rewrite / validate their arguments.
 -/
 namespace Glom.C04
 
@@ -15,19 +15,21 @@ inductive Store where
   | const (s : String)  -- `super().__init__(s)`
   | rev                 -- `super().__init__(*reversed(args))`
   | tme                 -- TypeMatchError: `super().__init__(FMT, args[1], args[0])`
+  | needInt             -- validates: `if type(args[0]) is not int: raise ValueError`, then `super().__init__(*args)`
   deriving DecidableEq, Repr
 
 inductive Shape where
   | sig (lo : Nat) (hi : Option Nat) (kwReq : Bool) (store : Store)
   | oserror             -- OSError_new/OSError_init: 3–5 arguments with a filename keep only (errno, strerror)
   | unicodeDecode       -- UnicodeDecodeError: exactly (str, bytes, int, int, str)
+  | egroup (base : Bool)  -- BaseExceptionGroup.__new__: exactly (str, non-empty sequence of exceptions);
+                        --   ExceptionGroup (`base = false`) refuses members that are not `Exception`s, a
+                        --   BaseExceptionGroup of `Exception`s only is turned into an ExceptionGroup (not modelled: `none`)
   deriving DecidableEq, Repr
-
-def tmeFmt : String := "expected type {0.__name__}, not {1.__name__}"
 
 def Store.apply (st : Store) (a : Args) : Args :=
   match st with
-  | .all => a
+  | .all | .needInt => a
   | .pre k => a.take k
   | .len => [.int a.length]
   | .const s => [.str s]
@@ -41,6 +43,7 @@ def Shape.construct (sh : Shape) (a : Args) (kw : Bool) : Option Args :=
     if a.length < lo then none
     else if (match hi with | some h => decide (h < a.length) | none => false) then none
     else if kwReq != kw then none
+    else if st == .needInt && !(match a with | .int _ :: _ => true | _ => false) then none   -- ValueError
     else some (st.apply a)
   | .oserror =>
     if kw then none
@@ -51,11 +54,18 @@ def Shape.construct (sh : Shape) (a : Args) (kw : Bool) : Option Args :=
     match a with
     | [.str _, .bytes _, .int _, .int _, .str _] => some a
     | _ => none
+  | .egroup base =>
+    if kw then none else
+    match a with
+    | [.str _, .excs i] => if base == decide (10 ≤ i) then some a else none   -- members with id ≥ 10 include a KeyboardInterrupt
+    | _ => none
 
 /-- positional re-construction, as `copy.copy` and `GlomError.wrap` do it -/
 def Shape.ctor (sh : Shape) (a : Args) : Option Args := sh.construct a false
 
-def mkClass (name : String) (bases : List String) (sh : Shape) (falsy : Bool := false) : ClassInfo :=
-  { name := name, bases := bases, ctor := sh.ctor, falsy := falsy }
+def mkClass (name : String) (bases : List String) (sh : Shape) (falsy : Bool := false)
+    (copyVia : CopyKind := .args) (sealed : Bool := false) (frozen : Bool := false) : ClassInfo :=
+  { name := name, bases := bases, ctor := sh.ctor, falsy := falsy, copyVia := copyVia, sealed := sealed,
+    frozen := frozen }
 
 end Glom.C04
